@@ -55,6 +55,29 @@ CHECKS = {
         technique="Lean 4 proof over generated model + exact correspondence",
         design="6/C06",
     ),
+    "C07": dict(
+        text=("24 theorems over the regenerated _analyze_stats for arbitrary statistics: effect/rel-effect identities; "
+              "p in [0,1]; one-sided intervals unbounded; intervals contain the estimate (two-sided; one-sided for "
+              "level >= 1/2, with the proved negation below 1/2 = known finding K1); p < 1-level iff the interval "
+              "excludes 0 for all three alternatives; greater+less = 1; two-sided = 2 min; nesting in the level; and "
+              "Hyp.of_laws (the hypotheses follow from the laws for all valid statistics). Tie: translator + exact "
+              "correspondence on _analyze_stats; search: the relations asserted on real float results."),
+        note=NOTE_COMMON + "Laws assumed of scipy t/norm, sqrt, exp (Dist.Laws, Prims.Laws) are hypotheses, sampled "
+             "on scipy each run. Relative-interval nesting and one-sided relative containment are checked, not proved.",
+        technique="Lean 4 proof over generated model + exact correspondence + float relation search",
+        design="6/C07",
+    ),
+    "C17": dict(
+        text=("Theorems scale_numerator (c>0: means/effect/abs interval x c, p/statistic/relative fields unchanged; all "
+              "metric kinds incl. covariates), scale_ratio_both, swap_roles (means exchanged, effect and statistic "
+              "negated, abs interval mirrored, p kept) at the level of the textbook test and, via C06, for the "
+              "generated analysis (scale_numerator_code, swap_roles_code). Tie as C06; search: exact swap and float "
+              "scale/swap end-to-end through Experiment.analyze."),
+        note=NOTE_COMMON + "sqrt(c^2 x) = c sqrt x is derived from the assumed root law; symmetry laws of t/norm assumed. "
+             "Scaling is exercised on the real code in float mode only.",
+        technique="Lean 4 proof over generated model + exact/float metamorphic search",
+        design="6/C17",
+    ),
 }
 
 PENDING_REASON = "check not implemented yet in this round (see DESIGN.md section 6 for the planned model and theorems)"
